@@ -159,7 +159,7 @@ MUTANTS = [
     {"id": "c14-deredden-other-data", "file": "sigpyproc/timeseries.py", "expect": "C14.R3",
      "old": "        tim_deredden = self.data - tim_filter", "new": "        tim_deredden = tim_filter - self.data"},
     {"id": "c14-detrend-slope", "file": KF, "expect": "C14.R3",
-     "old": "    x_sq_sum = m * (m - 1) * (2 * m - 1) / 6", "new": "    x_sq_sum = m * (m + 1) * (2 * m + 1) / 6"},
+     "old": "    x_sq_sum = mf * (mf - 1) * (2 * mf - 1) / 6", "new": "    x_sq_sum = mf * (mf + 1) * (2 * mf + 1) / 6"},
     {"id": "c14-block-ds-axes", "file": "sigpyproc/block.py", "expect": "C14.R3",
      "old": "new_ar = stats.downsample_2d(self.data, (ffactor, tfactor), filter_method)", "new": "new_ar = stats.downsample_2d(self.data, (tfactor, ffactor), filter_method)"},
     {"id": "c14-2d-median-axes", "file": SF, "expect": "C14.R1",
